@@ -14,6 +14,8 @@ mod search_thresh;
 mod search_enc;
 #[macro_use]
 mod search_codec;
+#[macro_use]
+mod search_misc;
 mod search;
 mod tok;
 
@@ -25,10 +27,19 @@ fn main() {
         Some("impl") => imp::run_all(),
         Some("oracle") => oracle::serve(),
         Some("gen") => print!("{}", gen::generate(&args[2], tier(3), seed(4)).s),
+        Some("c19-produce") => search_misc::c19_produce(tier(2), seed(3)),
+        Some("c19-consume") => match args.get(2) {
+            Some(f) => search_misc::c19_consume(f),
+            None => {
+                eprintln!("usage: blsdiff c19-consume <file>");
+                std::process::exit(2);
+            }
+        },
+        Some("c20-child") => search_misc::c20_child(args.get(2).map(|s| s.as_str())),
         Some("search") => search::run(&args[2], tier(3), seed(4)),
         Some("golden-check") => golden::check(&args[2]),
         _ => {
-            eprintln!("usage: blsdiff impl|oracle|gen <prop> <tier> <seed>|search <prop> <tier> <seed>");
+            eprintln!("usage: blsdiff impl|oracle|gen <prop> <tier> <seed>|search <prop> <tier> <seed>|c19-produce <tier> <seed>|c19-consume <file>");
             std::process::exit(2);
         }
     }
